@@ -87,9 +87,12 @@ class ForcePlatformsCalibrationDataBlock(Block):
         **kwargs,
     ) -> None:
         super().__init__(**kwargs)
-        self._platforms: List[ForcePlatformInfo] = platforms or []
+        self._platforms: List[ForcePlatformInfo] = []
         self._platformMap = []
         self.format = format
+        # every platform needs a channel: give the initial ones the next free channels
+        for platform in platforms or []:
+            self.add_platform(platform)
 
     @staticmethod
     def _build(stream, format) -> "ForcePlatformsCalibrationDataBlock":
